@@ -19,13 +19,15 @@ from . import absmodel, core, tlc
 FEATURES = ["docstring", "future_import", "comments", "decorators", "nested_defs", "partial_annotations", "typing_import",
             "import_module_runtime", "import_alias", "import_in_function", "existing_tc_block", "star_import", "import_dotted",
             "class_level_code", "module_level_code", "respelled_annotations", "wordy_annotations", "relative_import",
-            "tc_import_in_try", "tc_import_in_function", "reexport_alias_import", "posonly_then_kwonly_params", "fallback_import_in_try"]
+            "tc_import_in_try", "tc_import_in_function", "reexport_alias_import", "posonly_then_kwonly_params", "fallback_import_in_try", "latin1_source"]
 
 
 def gen_source(feat):
     """Source text of a module with the chosen features on a 3-function skeleton (+ a class)."""
     f = set(feat)
     L = []
+    if "latin1_source" in f:      # PEP 263: the file is NOT UTF-8 (written as latin-1 by the harness) and says so
+        L.append("# -*- coding: latin-1 -*-")
     if "docstring" in f:
         L.append('"""Module docstring."""')
     if "future_import" in f:
@@ -58,6 +60,8 @@ def gen_source(feat):
     L.append("")
     if "module_level_code" in f:
         L += ["COUNTER = [0]", ""]
+    if "latin1_source" in f:
+        L += ["LABEL = 'caf\xe9 \xfcber'", ""]
     if "decorators" in f:
         L += ["def deco(fn):", "    @functools.wraps(fn)", "    def w(*a, **k):", "        return fn(*a, **k)", "    return w", ""]
     if "comments" in f:
@@ -362,7 +366,10 @@ def run_case(case):
         name = package + ".core"
     else:
         path = os.path.join(w["dir"], name + ".py")
-    with open(path, "w") as fh:
+    latin1 = "latin1_source" in case["features"]
+    if latin1:
+        case = dict(case, via_cli=True)           # the file's encoding only matters to the command that reads and writes the file
+    with open(path, "w", encoding="latin-1" if latin1 else None) as fh:
         fh.write(src)
     importlib.invalidate_caches()
     rec = {"tid": case["tid"], "overwrite": case["overwrite"], "confine": case["confine"], "failed": False, "parses": True,
@@ -498,7 +505,8 @@ def apply_via_cli(w, name, path, traces, case):
                 break
             if rc != 0:
                 raise HandlerError("apply exited %s: %s" % (rc, err.getvalue()[-200:]))
-            with open(path) as fh:
+            import tokenize
+            with tokenize.open(path) as fh:           # as Python itself reads the file (coding cookie / BOM)
                 outs.append(fh.read())
             sys.modules.pop(name, None)
     finally:
@@ -684,6 +692,8 @@ def signature(clause, rec, case):
         sig["second_application_adds"] = rec.get("idem_delta", "")
     if clause == "ApplyFails":
         sig["err"] = rec["err"][:80]
+        if "UnicodeDecodeError" in rec["err"] and "latin1_source" in case["features"]:
+            sig = {"clause": clause, "source_not_utf8": True}
         if ("Could not resolve a unique qualified name" in rec["err"] and "posonly_then_kwonly_params" in case["features"]
                 and "f3" in case["traced"]):
             # the same libcst limitation (names in positional-only / keyword-only annotations are not re-qualified) when the
